@@ -20,6 +20,14 @@ package main
 //	           type the real ValidateConfig sees, found out with files that say the text where the schema wants a string /
 //	           a boolean / an integer (the decoder is inside ValidateConfig)
 //
+//	op "mech": config.NewConfiguration followed by mechanisms.NewMechanismFactory (config_mech.go): is the mechanism
+//	           catalogue usable, and which option names does the failing stage refuse by name
+//
+// A case may carry "prefix": the text handed to WithEnvPrefix / NewConfiguration instead of the private prefix (lower or
+// mixed case, padded with blanks, empty); its variables are then set under their FULL names (foreign ones, which do not
+// start with the prefix, among them); "clean_env": the process environment is emptied for the case (empty prefix: the
+// loader takes every variable).
+//
 // Environment variables are set in-process under a private prefix, in the order given by the case; every load
 // is repeated (Go map iteration order is random and the loader goes through maps), all distinct outcomes
 // are reported.
@@ -221,7 +229,7 @@ func c20History(c map[string]any) (any, error) {
 
 		for _, e := range getArr(load, "env") {
 			kv := getStrs(map[string]any{"kv": e}, "kv")
-			if err := os.Setenv(c20Prefix+kv[0], kv[1]); err != nil {
+			if err := c20Setenv(load, kv[0], kv[1]); err != nil {
 				return nil, err
 			}
 		}
@@ -247,7 +255,7 @@ func c20History(c map[string]any) (any, error) {
 				}
 			}()
 
-			cfg, err := config.NewConfiguration(config.EnvVarPrefix(c20Prefix), config.ConfigurationPath(file))
+			cfg, err := config.NewConfiguration(config.EnvVarPrefix(c20EnvPrefix(load)), config.ConfigurationPath(file))
 			if err != nil {
 				then = append(then, c20ErrKind(err))
 				cfgs = append(cfgs, nil)
@@ -375,6 +383,59 @@ func c20ClearEnv() {
 			os.Unsetenv(strings.SplitN(kv, "=", 2)[0])
 		}
 	}
+
+	for name := range c20SetNames {
+		os.Unsetenv(name)
+	}
+
+	c20SetNames = map[string]bool{}
+}
+
+// c20SetNames: variables set under their full name (cases with a prefix of their own), removed by c20ClearEnv
+var c20SetNames = map[string]bool{}
+
+// c20EnvPrefix: the prefix handed to the loader. A case may bring its own ("prefix": any text, as the operator passes
+// it with --env-config-prefix: lower / mixed case, without the trailing underscore, padded with blanks, empty); the
+// names of its variables are then FULL names as the process environment holds them, and some of them do not carry
+// the prefix at all
+func c20EnvPrefix(c map[string]any) string {
+	if p, ok := c["prefix"].(string); ok {
+		return p
+	}
+
+	return c20Prefix
+}
+
+func c20Setenv(c map[string]any, name, val string) error {
+	if _, ok := c["prefix"].(string); ok {
+		c20SetNames[name] = true
+
+		return os.Setenv(name, val)
+	}
+
+	return os.Setenv(c20Prefix+name, val)
+}
+
+// c20IsolateEnv: for a case whose prefix is empty (the loader then takes EVERY variable of the process) the process
+// environment is emptied for the duration of the case; the returned function puts it back
+func c20IsolateEnv(c map[string]any) func() {
+	if !getBool(c, "clean_env") {
+		return func() {}
+	}
+
+	saved := os.Environ()
+
+	os.Clearenv()
+
+	return func() {
+		os.Clearenv()
+
+		for _, kv := range saved {
+			if parts := strings.SplitN(kv, "=", 2); len(parts) == 2 && parts[0] != "" {
+				os.Setenv(parts[0], parts[1])
+			}
+		}
+	}
 }
 
 // c20Norm converts what the loaders produce into plain JSON values (json.Number inputs -> int)
@@ -439,8 +500,12 @@ func c20LoadOnce(c map[string]any, file string) (out any) {
 		return "ok"
 	}
 
+	if getStr(c, "op") == "mech" {
+		return c20Mech(c, file)
+	}
+
 	if getStr(c, "op") == "cfg" {
-		cfg, err := config.NewConfiguration(config.EnvVarPrefix(c20Prefix), config.ConfigurationPath(file))
+		cfg, err := config.NewConfiguration(config.EnvVarPrefix(c20EnvPrefix(c)), config.ConfigurationPath(file))
 		if err != nil {
 			if getBool(c, "debug") {
 				return c20ErrKind(err) + " " + err.Error()
@@ -464,7 +529,7 @@ func c20LoadOnce(c map[string]any, file string) (out any) {
 		}
 
 		opts := []parser.Option{
-			parser.WithEnvPrefix(c20Prefix),
+			parser.WithEnvPrefix(c20EnvPrefix(c)),
 			parser.WithDecodeHookFunc(mapstructure.StringToTimeDurationHookFunc()),
 			parser.WithDecodeHookFunc(mapstructure.StringToSliceHookFunc(",")),
 		}
@@ -503,7 +568,7 @@ func c20LoadOnce(c map[string]any, file string) (out any) {
 	probe.A, probe.B, probe.C, probe.AB = defaults["a"], defaults["b"], defaults["c"], defaults["a_b"]
 	probe.L, probe.M, probe.X1 = defaults["l"], defaults["m"], defaults["x1"]
 
-	opts := []parser.Option{parser.WithEnvPrefix(c20Prefix)}
+	opts := []parser.Option{parser.WithEnvPrefix(c20EnvPrefix(c))}
 	if file != "" {
 		opts = append(opts, parser.WithConfigFile(file))
 	}
@@ -567,6 +632,8 @@ func runConfig(c map[string]any) (any, error) {
 		file = tf.Name()
 	}
 
+	defer c20IsolateEnv(c)()
+
 	env := getArr(c, "env")
 	orders := getArr(c, "orders")
 
@@ -601,7 +668,7 @@ func runConfig(c map[string]any) (any, error) {
 			}
 
 			kv := getStrs(map[string]any{"kv": env[i]}, "kv")
-			if err := os.Setenv(c20Prefix+kv[0], kv[1]); err != nil {
+			if err := c20Setenv(c, kv[0], kv[1]); err != nil {
 				return nil, err
 			}
 		}
